@@ -360,6 +360,7 @@ def sympy_features(expr):
 # ---- index helpers on vectors and matrices -------------------------------------------------------------------------
 IDX_V = np.array([0.5, 1.5, -2.0, 3.0, 0.25])
 IDX_M = 0.25 + 0.5 * np.arange(12, dtype=float).reshape(4, 3) * np.array([1.0, -1.0, 1.0])
+IDX_V2 = np.array([1.0, -0.5, 2.5, 0.75, -1.25])
 IDX_B = np.array([0, 2], dtype=np.int32)
 IDX_R = 0.7
 
@@ -370,7 +371,10 @@ def idx_terms(tier):
          ('vsum', ('index_range', 'v', 1, 4)), ('vsum', ('index_range', 'v', 0, 2)),
          ('index', ('index_axis', 'M', 2, 1), 1), ('index', ('index_axis', 'M', 3, 0), 2),
          ('mean', ('index_axis', 'M', 1, 0)), ('mean', ('index_axis', 'M', 0, 1)),
-         ('vsum', ('index', 'v', 'B')), ('vsum', 'M'), ('mean', ('index_range', 'M', 1, 3)), 'r', '2']
+         ('vsum', ('index', 'v', 'B')), ('vsum', 'M'), ('mean', ('index_range', 'M', 1, 3)),
+         # helpers applied to expressions: a sum of vectors, a function of a vector, the two-argument form of index_axis
+         ('index', ('+', 'v', 'v2'), 1), ('index', ('sin', 'v'), 3), ('vsum', ('index_range', ('*', 'v', 'v2'), 1, 4)),
+         ('index', ('index_axis', 'M', 1), 2), 'r', '2']
     if tier != 'quick':
         t += [('index', 'v', 2), ('index', 'v', 3), ('index_2d', 'M', 2, 2), ('mean', ('index_range', 'v', 2, 5)),
               ('index', ('index', 'M', 1), 2), ('vsum', ('index_2d', 'M', 'B', 1))]
@@ -399,12 +403,13 @@ def idx_eval(t):
         if h == 'index_range':
             return idx_eval(t[1])[t[2]:t[3]]
         if h == 'index_axis':
-            return idx_eval(t[1])[(slice(None),) * t[3] + (t[2],)]
+            return idx_eval(t[1])[(slice(None),) * (t[3] if len(t) > 3 else 0) + (t[2],)]
         f = {'vsum': np.sum, 'mean': np.mean, 'maxi': np.max, 'sin': np.sin, 'absv': np.abs, 'neg': np.negative}[h]
         return f(idx_eval(t[1]))
     if isinstance(t, (int, np.integer)):
         return t
-    return {'v': IDX_V, 'M': IDX_M, 'B': IDX_B, 'r': IDX_R}.get(t, None) if t in ('v', 'M', 'B', 'r') else float(t)
+    return {'v': IDX_V, 'v2': IDX_V2, 'M': IDX_M, 'B': IDX_B, 'r': IDX_R}.get(t, None) if t in ('v', 'v2', 'M', 'B', 'r') \
+        else float(t)
 
 
 def idx_cases(tier, seed):
@@ -454,7 +459,7 @@ def run_idx(case):
     # path (i): parser + eval_node
     try:
         cg = ComputeGraph(backend='default', float_precision='float64')
-        args = {'v': arr(IDX_V, 'float64'), 'M': arr(IDX_M, 'float64'), 'B': arr(IDX_B, 'int32'),
+        args = {'v': arr(IDX_V, 'float64'), 'v2': arr(IDX_V2, 'float64'), 'M': arr(IDX_M, 'float64'), 'B': arr(IDX_B, 'int32'),
                 'r': {'vtype': 'constant', 'value': IDX_R, 'shape': (), 'dtype': 'float64'},
                 'qq': {'vtype': 'variable', 'value': 0.0, 'shape': (), 'dtype': 'float64'}}
         ExpressionParser(expr_str=f"qq = {expr}", args=args, cg=cg).parse_expr()
@@ -472,6 +477,8 @@ def run_idx(case):
         variables = {'q': 'output(0.0)', 'r': IDX_R}
         if "'v'" in repr(tree):
             variables['v'] = {'vtype': 'constant', 'dtype': 'float', 'value': IDX_V.copy(), 'shape': IDX_V.shape}
+        if "'v2'" in repr(tree):
+            variables['v2'] = {'vtype': 'constant', 'dtype': 'float', 'value': IDX_V2.copy(), 'shape': IDX_V2.shape}
         if "'M'" in repr(tree):
             variables['M'] = {'vtype': 'constant', 'dtype': 'float', 'value': IDX_M.copy(), 'shape': IDX_M.shape}
         if "'B'" in repr(tree):
